@@ -72,6 +72,7 @@ XI = [0.0, -1.0, 0.8]
 TAU = [70.0, 55.0, 90.0, 2.0, 0.0]
 SRC = [0.0, -2.0, 1.5]
 XI_THOROUGH = [2.5, -3.0]
+XI_EXTREME = [-6.5, -5.5, 5.5]
 TAU_THOROUGH = [70.25]
 
 GRID_LISTS = ["single", "at_tau", "empty", "zero", "unsorted", "repeated", "zero_mixed", "sorted", "far", "precise"]
@@ -99,6 +100,9 @@ def grid_ages(name, tau):
         return [tau + 1000.0, tau - 1000.0, tau + 30.0, tau - 30.0]
     if name == "long":
         return [tau - 12.0 + k for k in range(25)]
+    if name.startswith("scaled"):  # ages placed where an individual with an extreme log-acceleration xi is mid-curve: tau + c * exp(-xi)
+        import math
+        return [tau + c * math.exp(-float(name[6:])) for c in (-2.0, -0.5, 0.5, 2.0)]
     if name == "precise":  # more than 6 decimals, not exactly representable in single precision
         return [tau + 1.0 / 3.0, tau - 2.0000001, tau + 0.123456789]
     raise ValueError(name)
@@ -131,7 +135,7 @@ LAYOUT_LISTS = {
 }
 LAYOUT_LIST_ORDER = ["single", "unsorted", "repeated", "ints", "empty"]
 FORMS = [
-    "dict", "dict_df", "dict_array", "dict_scalar", "dict_scalar_df",
+    "dict", "dict_df", "dict_array", "dict_view", "dict_view_df", "dict_scalar", "dict_scalar_df",
     "mi", "mi_interleaved", "mi_nodf", "mi_swapped", "mi_3level",
 ]
 FORMS_THOROUGH = FORMS + ["dict_tuple", "dict_array_df", "mi_interleaved_nodf"]
@@ -496,6 +500,9 @@ def build_request(form, request):
                 tp[i] = tuple(ages)
             elif form.startswith("dict_array"):
                 tp[i] = np.array(ages, dtype=np.float64)
+            elif form.startswith("dict_view"):
+                # the same ages in the same order, held as a reversed VIEW of an array (negative stride), e.g. `grid[::-1]`
+                tp[i] = np.array(list(ages)[::-1], dtype=np.float64)[::-1]
             elif form.startswith("dict_scalar") and len(ages) == 1:
                 tp[i] = ages[0]
             else:
@@ -716,7 +723,7 @@ def bounds(tier):
             "kinds": list(KINDS),
             "(dimension, sources)": [list(x) for x in dims_ns(tier)],
             "parameter_vectors": "3 catalogue variants" + ("" if q else " + 1 wide vector (log g in [-2.5, 4], log v0 in [-5, -1], betas x3)"),
-            "xi": XI + ([] if q else XI_THOROUGH) + ["+ 1 seed-derived value"],
+            "xi": XI + ([] if q else XI_THOROUGH) + ["+ 1 seed-derived value"] + [f"{x} (ages tau + c exp(-xi))" for x in XI_EXTREME],
             "tau": TAU + ([] if q else TAU_THOROUGH) + ["+ 1 seed-derived value"],
             "sources": f"{SRC}^ns",
             "age_lists": GRID_LISTS if q else GRID_LISTS_THOROUGH,
@@ -794,6 +801,11 @@ def grid_cases(shard):
                 for name in lists:
                     for site in ("estimate", "cit"):
                         yield {"t": "grid", "spec": spec, "xi": xi, "tau": tau, "src": list(src), "list": name, "site": site}
+    # extreme log-accelerations (x 1/665 .. x 245), evaluated where such an individual is mid-curve
+    for xi in XI_EXTREME:
+        for src in list(itertools.product(SRC, repeat=spec["ns"]))[:2]:
+            for site in ("estimate", "cit"):
+                yield {"t": "grid", "spec": spec, "xi": xi, "tau": 70.0, "src": list(src), "list": f"scaled{xi}", "site": site}
 
 
 def layout_cases(shard):
